@@ -89,6 +89,23 @@ func (a *absint) linOfAt(t Term, depth int, at ssa.Instruction) linForm {
 						return a.linOfAt(Term{V: ac.Call.Args[0], Len: true}, depth-1, at).addScaled(a.linOfAt(Term{V: ac.Call.Args[1], Len: true}, depth-1, at), 1)
 					}
 				}
+				// len(slices.Concat(a, b, …)) = len(a) + len(b) + …; len(Clone(x)) = len(x)
+				switch stdCallee(&ac.Call) {
+				case "slices.Concat":
+					if len(ac.Call.Args) == 1 {
+						if els := variadicElemsOrdered(ac.Call.Args[0]); els != nil {
+							r := newLin()
+							for _, e := range els {
+								r = r.addScaled(a.linOfAt(Term{V: e, Len: true}, depth-1, at), 1)
+							}
+							return r
+						}
+					}
+				case "bytes.Clone", "slices.Clone":
+					if len(ac.Call.Args) == 1 {
+						return a.linOfAt(Term{V: ac.Call.Args[0], Len: true}, depth-1, at)
+					}
+				}
 				// a module helper whose result length equals one of its arguments
 				if h := ac.Call.StaticCallee(); h != nil && a.w.IsMod[h] {
 					if cd, ok := a.lenPost(h, 0); ok {
